@@ -14,11 +14,13 @@ import (
 	sdk "github.com/cosmos/cosmos-sdk/types"
 	authtypes "github.com/cosmos/cosmos-sdk/x/auth/types"
 	banktestutil "github.com/cosmos/cosmos-sdk/x/bank/testutil"
+	stakingtypes "github.com/cosmos/cosmos-sdk/x/staking/types"
 	epochstypes "github.com/osmosis-labs/osmosis/v15/x/epochs/types"
 
 	inctypes "github.com/dymensionxyz/dymension/v3/x/incentives/types"
 	lockuptypes "github.com/dymensionxyz/dymension/v3/x/lockup/types"
 	rollapptypes "github.com/dymensionxyz/dymension/v3/x/rollapp/types"
+	sponstypes "github.com/dymensionxyz/dymension/v3/x/sponsorship/types"
 	"github.com/dymensionxyz/dymension/v3/x/streamer"
 	streamerkeeper "github.com/dymensionxyz/dymension/v3/x/streamer/keeper"
 	streamertypes "github.com/dymensionxyz/dymension/v3/x/streamer/types"
@@ -32,7 +34,16 @@ import (
 //   rollapp <r> <owner> <launched> | rgauge <r>
 //   mkgauge <owner> <perpetual> <lockDenom> <durSeconds> <c0,c1> <start> <numEpochs>
 //   addgauge <owner> <gaugeId> <c0,c1>
-//   mkstream <c0,c1> <g:w,...|-> <start> <epochId> <numEpochs> | term <id> | replace <id> <g:w,...>
+//   mkstream <c0,c1> <g:w,...|-> <start> <epochId> <numEpochs> [s] | term <id> | replace <id> <g:w,...>
+//     (trailing `s`: CreateStreamProposal{Sponsored: true}; its records are ignored by the chain)
+//   update <id> <g:w,...>: UpdateStreamDistributionProposal
+//   distribution <g:w,...|->: the current x/sponsorship distribution (input of the model, derived from the real
+//     keeper after every op that changed it, never taken from a file)
+//   poolgauges <denomIdx> <hasSupply>: Hooks.AfterPoolCreated(poolId = denomIdx-10) -> CreatePoolGauge; lock denom
+//     index denomIdx (>= 10) is the pool's share denom gamm/pool/<poolId>; hasSupply=1: the shares are minted to
+//     the actors first
+// Harness-only sponsorship lines: delegate <actor> <dym> (real MsgDelegate to the genesis validator),
+// vote <actor> <g:pct,...> (real MsgVote, weights in percent), revoke <actor> (real MsgRevokeVote).
 // Harness-only lines (executed on the real lockup / rollapp module; the model answers them with the constant
 // observation `harness-only`; the resulting lock table is handed to the model by a `locks` line):
 // lock <owner> <denom> <amt> <dur>, unlock <owner> <lockId>;
@@ -65,7 +76,12 @@ func c15Addr(a int) sdk.AccAddress {
 	return Actor(a)
 }
 
-func c15LockDenom(i int) string { return fmt.Sprintf("lk%d", i) }
+func c15LockDenom(i int) string {
+	if i >= 10 {
+		return fmt.Sprintf("gamm/pool/%d", i-10) // gammtypes.GetPoolShareDenom
+	}
+	return fmt.Sprintf("lk%d", i)
+}
 func c15RollappID(r int) string { return fmt.Sprintf("rolx%s_%d-1", string(rune('a'+r%26)), 7000+r) }
 
 func c15Coins(tok string) sdk.Coins {
@@ -113,6 +129,34 @@ type c15World struct {
 	halted bool
 	pay    *c15PayRec // payouts of the incentives module account seen during the running block op
 	fresh  []int      // fresh addresses (>= c15Fresh0) that became rollapp owners in this trace, ascending
+	pools  []int      // lock denom indexes (10 + poolId) of the pools whose share denom was minted
+}
+
+// distrLine renders the real sponsorship distribution as the model's input line
+func (w *c15World) distrLine() string {
+	d, err := w.f.App.SponsorshipKeeper.GetDistribution(w.f.Ctx)
+	if err != nil {
+		panic(err)
+	}
+	p := []string{}
+	for _, g := range d.Gauges {
+		p = append(p, fmt.Sprintf("%d:%s", g.GaugeId, g.Power))
+	}
+	if len(p) == 0 {
+		return "distribution -"
+	}
+	return "distribution " + strings.Join(p, ",")
+}
+
+func c15ShowRecs(rs []streamertypes.DistrRecord) string {
+	if len(rs) == 0 {
+		return "-"
+	}
+	p := []string{}
+	for _, r := range rs {
+		p = append(p, fmt.Sprintf("%d*%s", r.GaugeId, r.Weight))
+	}
+	return strings.Join(p, "+")
 }
 
 func (w *c15World) addFresh(a int) {
@@ -189,6 +233,7 @@ type c15Trace struct {
 	kinds     []string  // op-kind/outcome sequence (class key)
 	accepted  bool
 	lastLocks string
+	lastDistr string
 	skipLine  string          // the `rollapp` line emitted by a successful xferowner (skipped when a file repeats it)
 	noAcct    map[string]bool // fresh addresses (bech32) that had no x/auth account before the running op
 	// facts about the trace used to name what fails
@@ -204,6 +249,7 @@ type c15Trace struct {
 	epochMax    map[uint64]sdk.Coins
 	epochExempt map[uint64]bool
 	retargeted  map[uint64]bool // streams whose records were replaced (outside the paging clause's quantifier)
+	epochRecs   map[uint64]string // sponsored streams: the records seen last
 }
 
 // cause names why a stream could hand out more than it holds, from facts observed earlier in the trace
@@ -274,7 +320,7 @@ func (w *c15World) locksLine() string {
 				owner = a
 			}
 		}
-		for d := 0; d < 2; d++ {
+		for _, d := range append([]int{0, 1}, w.pools...) {
 			if amt := l.Coins.AmountOf(c15LockDenom(d)); amt.IsPositive() {
 				parts = append(parts, fmt.Sprintf("%d:%d:%s:%d", owner, d, amt, int64(l.Duration/time.Second)))
 			}
@@ -330,7 +376,12 @@ func (w *c15World) obs() string {
 		if len(s.EpochCoins) == 0 {
 			e = "E"
 		}
-		sp = append(sp, fmt.Sprintf("%d:%d/%d:%s:%s:%s:%s", s.Id, s.FilledEpochs, s.NumEpochsPaidOver, c15ShowCoins(s.Coins), c15ShowCoins(s.DistributedCoins), c15ShowCoins(s.EpochCoins), e))
+		spo := "n"
+		if s.Sponsored {
+			spo = "s"
+		}
+		sp = append(sp, fmt.Sprintf("%d:%d/%d:%s:%s:%s:%s:%s:%s:%s", s.Id, s.FilledEpochs, s.NumEpochsPaidOver, c15ShowCoins(s.Coins), c15ShowCoins(s.DistributedCoins), c15ShowCoins(s.EpochCoins), e,
+			spo, s.DistributeTo.TotalWeight, c15ShowRecs(s.DistributeTo.Records)))
 	}
 	pp, ep := []string{}, []string{}
 	for _, id := range c15Epochs {
@@ -431,10 +482,66 @@ func (w *c15World) apply(fl []string, unlimited bool) (class string, err error) 
 		f.App.RollappKeeper.SetRollapp(f.Ctx, rollapptypes.Rollapp{RollappId: c15RollappID(int(n(1))), Owner: c15Addr(int(n(2))).String(), Launched: fl[3] == "1"})
 		return "ok", nil
 	case "rgauge":
+		// the real x/rollapp hook: CreateRollappGauge + SaveEndorsement (votes for the gauge need the endorsement)
 		err := f.Try(func(ctx sdk.Context) error {
-			_, err := f.App.IncentivesKeeper.CreateRollappGauge(ctx, c15RollappID(int(n(1))))
-			return err
+			return f.App.StreamerKeeper.Hooks().RollappCreated(ctx, c15RollappID(int(n(1))), "", nil)
 		})
+		return c15Class(err), err
+	case "poolgauges":
+		idx := int(n(1))
+		if fl[2] == "1" {
+			big := math.NewIntWithDecimal(1, 30)
+			for a := 0; a < c15NA; a++ {
+				f.Fund(Actor(a), sdk.NewCoin(c15LockDenom(idx), big))
+			}
+			known := false
+			for _, x := range w.pools {
+				known = known || x == idx
+			}
+			if !known {
+				w.pools = append(w.pools, idx)
+			}
+		}
+		before := len(f.App.IncentivesKeeper.GetGauges(f.Ctx))
+		var perr error
+		func() {
+			defer func() {
+				if e := recover(); e != nil {
+					perr = &PanicError{Val: e}
+				}
+			}()
+			// the hook runs on the transaction's own context (no cache of its own) and only logs an error
+			f.App.StreamerKeeper.Hooks().AfterPoolCreated(f.Ctx, c15Addr(0), uint64(idx-10))
+		}()
+		if perr != nil {
+			return "panic", perr
+		}
+		if len(f.App.IncentivesKeeper.GetGauges(f.Ctx)) != before+len(f.App.IncentivesKeeper.GetLockableDurations(f.Ctx)) {
+			return "err", fmt.Errorf("CreatePoolGauge stopped early")
+		}
+		return "ok", nil
+	case "delegate":
+		vals, err := f.App.StakingKeeper.GetAllValidators(f.Ctx)
+		if err != nil || len(vals) == 0 {
+			panic("no validator")
+		}
+		_, err = f.Deliver(&stakingtypes.MsgDelegate{DelegatorAddress: c15Addr(int(n(1))).String(), ValidatorAddress: vals[0].OperatorAddress,
+			Amount: sdk.NewCoin("stake", math.NewIntWithDecimal(n(2), 18))})
+		return c15Class(err), err
+	case "vote":
+		ws := []sponstypes.GaugeWeight{}
+		if fl[2] != "-" {
+			for _, p := range strings.Split(fl[2], ",") {
+				gw := strings.Split(p, ":")
+				g, _ := strconv.ParseUint(gw[0], 10, 64)
+				pct, _ := strconv.ParseInt(gw[1], 10, 64)
+				ws = append(ws, sponstypes.GaugeWeight{GaugeId: g, Weight: math.NewIntWithDecimal(pct, 18)})
+			}
+		}
+		_, err := f.Deliver(&sponstypes.MsgVote{Voter: c15Addr(int(n(1))).String(), Weights: ws})
+		return c15Class(err), err
+	case "revoke":
+		_, err := f.Deliver(&sponstypes.MsgRevokeVote{Voter: c15Addr(int(n(1))).String()})
 		return c15Class(err), err
 	case "mkgauge":
 		msg := inctypes.NewMsgCreateAssetGauge(fl[2] == "1", c15Addr(int(n(1))),
@@ -454,11 +561,20 @@ func (w *c15World) apply(fl []string, unlimited bool) (class string, err error) 
 		return c15Class(err), err
 	case "mkstream":
 		p := &streamertypes.CreateStreamProposal{Title: "t", Description: "d", DistributeToRecords: c15Recs(fl[2]), Coins: c15Coins(fl[1]),
-			StartTime: c15ToTime(n(3)), DistrEpochIdentifier: c15EpochName(int(n(4))), NumEpochsPaidOver: uint64(n(5))}
+			StartTime: c15ToTime(n(3)), DistrEpochIdentifier: c15EpochName(int(n(4))), NumEpochsPaidOver: uint64(n(5)), Sponsored: len(fl) > 6 && fl[6] == "s"}
 		if err := p.ValidateBasic(); err != nil {
 			return "invalid", err
 		}
 		err := f.Try(func(ctx sdk.Context) error { return streamer.HandleCreateStreamProposal(ctx, f.App.StreamerKeeper, p) })
+		return c15Class(err), err
+	case "update":
+		p := &streamertypes.UpdateStreamDistributionProposal{Title: "t", Description: "d", StreamId: uint64(n(1)), Records: c15Recs(fl[2])}
+		if err := p.ValidateBasic(); err != nil {
+			return "invalid", err
+		}
+		err := f.Try(func(ctx sdk.Context) error {
+			return streamer.HandleUpdateStreamDistributionProposal(ctx, f.App.StreamerKeeper, p)
+		})
 		return c15Class(err), err
 	case "term":
 		p := &streamertypes.TerminateStreamProposal{Title: "t", Description: "d", StreamId: uint64(n(1))}
@@ -494,11 +610,12 @@ func c15EpochName(e int) string {
 
 func c15Start(r *Run, maxIter uint64) *c15Trace {
 	t := &c15Trace{r: r, w: c15NewWorld(r.T, maxIter), sh: c15NewWorld(r.T, 1<<62), shadowOK: true,
-		epochBase: map[uint64]sdk.Coins{}, epochMax: map[uint64]sdk.Coins{}, epochExempt: map[uint64]bool{}, retargeted: map[uint64]bool{}}
+		epochBase: map[uint64]sdk.Coins{}, epochMax: map[uint64]sdk.Coins{}, epochExempt: map[uint64]bool{}, retargeted: map[uint64]bool{}, epochRecs: map[uint64]string{}}
 	line := fmt.Sprintf("reset %d %d %d %d", c15Time(t.w.f), maxIter, c15ND, c15NA)
 	t.lines = append(t.lines, line)
 	r.Emit(line, "ok | "+t.w.obs())
 	t.lastLocks = "locks -"
+	t.lastDistr = "distribution -"
 	return t
 }
 
@@ -556,7 +673,7 @@ func c15Only(cs sdk.Coins) sdk.Coins {
 func (t *c15Trace) exec(line string) bool {
 	r := t.r
 	fl := strings.Fields(line)
-	if len(fl) == 0 || fl[0] == "locks" || fl[0] == "reset" || (fl[0] == "rollapp" && len(fl) > 2 && fl[2] == "102") {
+	if len(fl) == 0 || fl[0] == "locks" || fl[0] == "distribution" || fl[0] == "reset" || (fl[0] == "rollapp" && len(fl) > 2 && fl[2] == "102") {
 		return true // `locks` lines are derived from the real lockup module, never taken from a file
 	}
 	if line == t.skipLine {
@@ -564,7 +681,7 @@ func (t *c15Trace) exec(line string) bool {
 		return true // the `rollapp` line a successful xferowner just before it has already produced
 	}
 	t.skipLine = ""
-	harnessOnly := fl[0] == "lock" || fl[0] == "unlock" || fl[0] == "xferowner"
+	harnessOnly := fl[0] == "lock" || fl[0] == "unlock" || fl[0] == "xferowner" || fl[0] == "delegate" || fl[0] == "vote" || fl[0] == "revoke"
 	t.lines = append(t.lines, line)
 	if (fl[0] == "rollapp" || fl[0] == "xferowner") && len(fl) > 2 {
 		if a, err := strconv.Atoi(fl[2]); err == nil {
@@ -646,6 +763,13 @@ func (t *c15Trace) exec(line string) bool {
 				r.Hit("lock-matured-in-endblock")
 			}
 		}
+	}
+	// hand the (possibly changed) sponsorship distribution to the model
+	if dl := t.w.distrLine(); dl != t.lastDistr {
+		t.lastDistr = dl
+		t.lines = append(t.lines, dl)
+		r.Emit(dl, "ok | "+t.w.obs())
+		r.Hit("distribution-changed/after-" + fl[0])
 	}
 	t.monitors(fl, class, pre, preLocks, preRollapps, preGauges)
 	return true
@@ -729,10 +853,10 @@ func (t *c15Trace) monitors(fl []string, class string, pre c15Snap, preLocks []l
 				t.epochBase[s.Id], t.epochMax[s.Id] = s.DistributedCoins, sharesOf(s)
 				continue
 			}
-			if op == "replace" && class == "ok" && fl[1] == strconv.FormatUint(s.Id, 10) {
+			if (op == "replace" || op == "update") && class == "ok" && fl[1] == strconv.FormatUint(s.Id, 10) {
 				t.epochExempt[s.Id] = true
 				t.retargeted[s.Id] = true
-				r.Hit("records-replaced")
+				r.Hit("records-" + op + "d")
 			}
 			if !t.epochExempt[s.Id] && s.DistributedCoins.IsAllGTE(base) {
 				if inc := s.DistributedCoins.Sub(base...); !inc.IsAllLTE(t.epochMax[s.Id]) {
@@ -748,6 +872,41 @@ func (t *c15Trace) monitors(fl []string, class string, pre c15Snap, preLocks []l
 			}
 			if op == "begin" && post.epochNo[s.DistrEpochIdentifier] != pre.epochNo[s.DistrEpochIdentifier] {
 				t.epochBase[s.Id], t.epochMax[s.Id], t.epochExempt[s.Id] = s.DistributedCoins, sharesOf(s), false
+			}
+		}
+	}
+
+	// sponsored streams: the distribution x/sponsorship hands out lists its gauges in strictly ascending id order
+	// (the model's Op.wfS assumption), and a sponsored stream that went through its own epoch's start in this
+	// block carries exactly DistrInfoFromDistribution(current distribution)
+	{
+		d, err := f.App.SponsorshipKeeper.GetDistribution(f.Ctx)
+		if err == nil {
+			for i := 1; i < len(d.Gauges); i++ {
+				if d.Gauges[i-1].GaugeId >= d.Gauges[i].GaugeId {
+					r.Violate("C15/sponsored/distribution-not-strictly-ascending", fmt.Sprintf("gauge %d listed before %d", d.Gauges[i-1].GaugeId, d.Gauges[i].GaugeId), t.replay()...)
+				}
+			}
+			want := streamertypes.DistrInfoFromDistribution(d)
+			for _, s := range sk.GetActiveStreams(f.Ctx) {
+				if !s.Sponsored {
+					continue
+				}
+				r.Hit("sponsored/active")
+				if s.DistributeTo.TotalWeight.IsZero() {
+					r.Hit("sponsored/active-with-empty-distribution")
+				}
+				if op == "begin" && post.epochNo[s.DistrEpochIdentifier] != pre.epochNo[s.DistrEpochIdentifier] && pre.active[s.Id] {
+					r.Hit("sponsored/epoch-start")
+					if c15ShowRecs(s.DistributeTo.Records) != c15ShowRecs(want.Records) || !s.DistributeTo.TotalWeight.Equal(want.TotalWeight) {
+						r.Violate("C15/sponsored/records-not-refreshed-at-epoch-start", fmt.Sprintf("stream %d carries %s (total %s) after its epoch start, the distribution is %s (total %s)",
+							s.Id, c15ShowRecs(s.DistributeTo.Records), s.DistributeTo.TotalWeight, c15ShowRecs(want.Records), want.TotalWeight), t.replay()...)
+					}
+					if t.epochRecs[s.Id] != "" && t.epochRecs[s.Id] != c15ShowRecs(s.DistributeTo.Records) {
+						r.Hit("sponsored/retargeted-at-epoch-start")
+					}
+				}
+				t.epochRecs[s.Id] = c15ShowRecs(s.DistributeTo.Records)
 			}
 		}
 	}
@@ -1260,6 +1419,64 @@ type c15Gen struct {
 	rgauges  []int // ids of rollapp gauges
 	lockIDs  []uint64
 	inBlock  bool
+	staked   map[int]bool // actors that have delegated (may vote)
+	voted    map[int]bool
+	nPools   int
+}
+
+// votes: a sponsorship vote of one actor over 1-3 perpetual gauges (percent weights, total <= 100, sometimes
+// listed in descending gauge order: x/sponsorship sorts), after a delegation if the actor has none yet
+func (x *c15Gen) sponsorshipOp() bool {
+	g := x.g
+	if x.staked == nil {
+		x.staked, x.voted = map[int]bool{}, map[int]bool{}
+	}
+	a := g.Intn(c15NA)
+	if !x.staked[a] || g.Chance(15) {
+		x.staked[a] = true
+		x.t.r.Hit("sponsorship/delegate")
+		if !x.do(fmt.Sprintf("delegate %d %d", a, 1+g.Intn(50))) {
+			return false
+		}
+	}
+	if x.voted[a] && g.Chance(25) {
+		x.voted[a] = false
+		x.t.r.Hit("sponsorship/revoke")
+		return x.do(fmt.Sprintf("revoke %d", a))
+	}
+	if len(x.perp) == 0 {
+		return true
+	}
+	pick := map[int]bool{}
+	for i := 1 + g.Intn(3); i > 0; i-- {
+		pick[x.perp[g.Intn(len(x.perp))]] = true
+	}
+	ids := []int{}
+	for id := range pick {
+		ids = append(ids, id)
+	}
+	sort.Ints(ids)
+	if g.Chance(30) {
+		sort.Sort(sort.Reverse(sort.IntSlice(ids)))
+		x.t.r.Hit("sponsorship/vote-weights-descending")
+	}
+	left := 100
+	parts := []string{}
+	for i, id := range ids {
+		w := 1 + g.Intn(left-(len(ids)-1-i))
+		if g.Chance(30) && i == len(ids)-1 {
+			w = left // everything allocated
+		}
+		left -= w
+		parts = append(parts, fmt.Sprintf("%d:%d", id, w))
+	}
+	if g.Chance(8) && len(x.nonperp) > 0 {
+		parts = append(parts, fmt.Sprintf("%d:1", x.nonperp[0])) // rejected: not perpetual
+		x.t.r.Hit("perturb/vote-non-perpetual")
+	}
+	x.voted[a] = true
+	x.t.r.Hit("sponsorship/vote")
+	return x.do(fmt.Sprintf("vote %d %s", a, strings.Join(parts, ",")))
 }
 
 // freshOwners: every rollapp (most of them) is handed to a never-seen, account-less address through the real
@@ -1584,7 +1801,12 @@ func (x *c15Gen) txOp() bool {
 				coins = "0,0"
 			}
 		}
-		ok := x.do(fmt.Sprintf("mkstream %s %s %d %d %d", coins, recs, x.startTime(), ep, ne))
+		spo := ""
+		if g.Chance(30) {
+			spo = " s" // sponsored: the records above are ignored, the stream follows the sponsorship distribution
+			x.t.r.Hit("mkstream-sponsored")
+		}
+		ok := x.do(fmt.Sprintf("mkstream %s %s %d %d %d%s", coins, recs, x.startTime(), ep, ne, spo))
 		x.sync()
 		return ok
 	case 9: // terminate
@@ -1662,8 +1884,27 @@ func (x *c15Gen) txOp() bool {
 			return x.freshOwners(0)
 		}
 		return true
-	default:
-		return true
+	case 15: // sponsorship: delegate / vote / revoke (changes the distribution sponsored streams follow)
+		return x.sponsorshipOp()
+	default: // UpdateStreamDistributionProposal; rarely a new pool (AfterPoolCreated -> CreatePoolGauge)
+		if g.Chance(12) && x.nPools < 2 {
+			x.nPools++
+			has := g.Chance(80)
+			if !has {
+				x.t.r.Hit("perturb/poolgauges-no-supply")
+			}
+			ok := x.do(fmt.Sprintf("poolgauges %d %s", 10+x.nPools, c15b(has)))
+			x.sync()
+			if ok && has && g.Chance(70) {
+				ok = x.do(fmt.Sprintf("lock %d %d %s %d", g.Intn(c15NA), 10+x.nPools, []string{"7", "1000", "333333"}[g.Intn(3)], []int{60, 3600, 25200}[g.Intn(3)]))
+				x.sync()
+			}
+			return ok
+		}
+		if x.nStreams == 0 || !g.Chance(40) {
+			return true
+		}
+		return x.do(fmt.Sprintf("update %d %s", 1+g.Intn(x.nStreams), x.recs(perturb)))
 	}
 }
 
@@ -1779,6 +2020,33 @@ func c15RandomTrace(r *Run, g *Rng) {
 			return
 		}
 		if !x.freshOwners(2+g.Intn(7)) || !x.do("end") {
+			return
+		}
+	}
+	// often: a sponsored stream over the hour epoch with votes that change between (and within) epochs
+	if g.Chance(45) {
+		r.Hit("shape/sponsored-stream")
+		if !x.do(fmt.Sprintf("begin %d", 1+g.Intn(100))) {
+			return
+		}
+		for k := 0; k < 3; k++ {
+			x.do(fmt.Sprintf("mkgauge %d 1 %d %d 0,0 %d 1", g.Intn(c15NA), g.Intn(2), []int{1, 60, 3600}[g.Intn(3)], x.now()))
+		}
+		x.sync()
+		x.do(fmt.Sprintf("lock %d %d %s %d", g.Intn(c15NA), 0, "1000", 3600))
+		x.do(fmt.Sprintf("lock %d %d %s %d", g.Intn(c15NA), 1, "333333", 3600))
+		if g.Chance(75) {
+			if !x.sponsorshipOp() {
+				return
+			}
+		} else {
+			r.Hit("shape/sponsored-stream-created-on-empty-distribution")
+		}
+		coins := x.coins(false)
+		x.do("fund 100 " + coins)
+		x.do(fmt.Sprintf("mkstream %s - %d %d %d s", coins, x.now(), []int{1, 1, 1, 0}[g.Intn(4)], 2+g.Intn(4)))
+		x.sync()
+		if !x.do("end") {
 			return
 		}
 	}
@@ -1933,6 +2201,57 @@ var c15Witnesses = map[string][]string{
 		"fund 100 9000,0", "mkstream 9000,0 1:1,2:2 NOW 1 4",
 		"begin 604801", "end", "begin 3601", "end", "begin 10", "end",
 		"maxiter 1", "begin 3601", "end", "begin 10", "end", "begin 10", "end",
+	},
+	// a sponsored stream follows the sponsorship distribution: created on {1:50%,2:50%}; the vote moves to gauge 3 in
+	// the middle of an epoch (the stream keeps its records until its next epoch start, then re-targets itself);
+	// the vote is revoked (empty distribution: the epoch hands out nothing and is NOT counted as filled); a new vote
+	// arrives and the stream finishes.  Paged with limit 1, so the re-targeting meets a pointer that is reset.
+	"sponsored-retarget": {
+		"maxiter 1",
+		"begin 1", "end",
+		"mkgauge 0 1 0 1 0,0 NOW 1", "mkgauge 0 1 0 1 0,0 NOW 1", "mkgauge 0 1 0 1 0,0 NOW 1",
+		"lock 1 0 100 3600",
+		"delegate 0 10", "vote 0 2:50,1:50",
+		"fund 100 3000,7", "mkstream 3000,7 - NOW 1 3 s",
+		"begin 3601", "end", "begin 10", "end", "vote 0 3:100", "begin 10", "end",
+		"begin 3601", "end", "begin 10", "end", "revoke 0",
+		"begin 3601", "end", "begin 3601", "end",
+		"delegate 2 5", "vote 2 1:10,3:30",
+		"begin 3601", "end", "begin 10", "end", "begin 10", "end", "begin 3601", "end", "begin 3601", "end",
+	},
+	// created while nobody has voted (total weight 0, not an error for a sponsored stream), next to an ordinary stream;
+	// governance replaces / updates the sponsored stream's records: the next epoch start overwrites them again
+	"sponsored-empty-then-votes": {
+		"begin 1", "end",
+		"mkgauge 0 1 0 1 0,0 NOW 1", "mkgauge 0 1 1 60 0,0 NOW 1",
+		"lock 1 0 100 3600", "lock 2 1 50 60",
+		"fund 100 9000,0", "mkstream 4000,0 1:1 NOW 1 2 s", "mkstream 5000,0 1:1,2:4 NOW 1 5",
+		"begin 3601", "end", "begin 3601", "end",
+		"delegate 3 7", "vote 3 2:100",
+		"begin 3601", "end", "replace 1 1:1", "begin 10", "end", "update 1 2:3", "begin 3601", "end", "begin 3601", "end", "begin 3601", "end",
+	},
+	// UpdateStreamDistributionProposal in the middle of a half-served epoch (limit 1): gauge 2 dropped (weight 0),
+	// gauge 3 added, gauge 1 re-weighted
+	"update-distr-mid-epoch": {
+		"maxiter 1",
+		"begin 1", "end",
+		"mkgauge 0 1 0 1 0,0 NOW 1", "mkgauge 0 1 0 1 0,0 NOW 1", "mkgauge 0 1 0 1 0,0 NOW 1",
+		"lock 1 0 100 3600",
+		"fund 100 6000,0",
+		"mkstream 6000,0 1:1,2:1 NOW 1 3",
+		"begin 3601", "end", "begin 3601", "end", "update 1 2:0,3:5,1:2", "update 1 1:2,2:0,3:5", "begin 10", "end", "begin 10", "end",
+		"update 1 1:0,3:0", "update 1 4:1", "begin 3601", "end", "begin 3601", "end",
+	},
+	// Hooks.AfterPoolCreated -> CreatePoolGauge: five perpetual asset gauges on the pool's share denom, owned by
+	// the streamer module account, with empty coins; a stream and a sponsored stream feed them; a pool whose share
+	// denom has no supply gets none
+	"pool-gauges": {
+		"begin 1", "end",
+		"poolgauges 11 1", "poolgauges 12 0",
+		"lock 1 11 100 3600", "lock 2 11 300 60",
+		"delegate 4 3", "vote 4 2:40,5:60",
+		"fund 100 9000,50", "mkstream 5000,50 1:1,2:2,5:3 NOW 1 2", "mkstream 4000,0 - NOW 1 2 s",
+		"begin 3601", "end", "begin 3601", "end", "begin 3601", "end", "begin 604801", "end",
 	},
 	// a stream that becomes active at another identifier's epoch start is served in its first (partial)
 	// epoch only if the pointer of its own epoch has not yet reached the end
